@@ -21,6 +21,7 @@ THEOREMS = [
     "decisions_are_threshold_tests",
     "step_pairs",
     "pairs_disjoint",
+    "phase_decisions_independent",
     "swap_uniforms_pre_drawn",
     "parallel_step_eq_serial",
     "one_replica_steps",
